@@ -274,8 +274,62 @@ def c18(run):
     if int(size[1]) != 0 or int(size[2]) != 0:
         run.violation('library object has data=%s bss=%s' % (size[1], size[2]), ['# size sx127x.o'])
     def gen(g):
-        g.hist(q(run, 150, 2000))
-    return C.execute(run, gen, monitor=M.mon_flags)
+        g.hist(q(run, 150, 2000)); g.lora_rx(q(run, 20, 300)); g.lora_tx(q(run, 20, 300)); g.fsk_rx(q(run, 20, 300)); g.fsk_tx(q(run, 20, 300))
+        g.hop(q(run, 10, 100))
+    divs = C.execute(run, gen, monitor=M.mon_flags)
+    interleave(run)
+    return divs
+
+def interleave(run):
+    """two histories on two handles bound to two simulated chips, interleaved at call granularity,
+    against each history alone (real driver on both sides; the solo runs are also the ones compared
+    with the model)"""
+    import random
+    r = random.Random(run.seed * 7919 + 18)
+    solo = [s for s in run.by_hdr.values() if len(s) > 2 and s[1] == 'reset' and 'reset' not in s[2:]
+            and run.impl.get(s[0], ([], None))[1] is None]
+    r.shuffle(solo)
+    pairs = [(solo[2 * k], solo[2 * k + 1]) for k in range(len(solo) // 2)]
+    mixed = []
+    for k, (a, b) in enumerate(pairs):
+        lines = ['# script i%d interleaved' % k, 'reset']
+        qa, qb = list(a[2:]), list(b[2:])
+        cur = 0
+        while qa or qb:
+            pick = 0 if (qa and (not qb or r.random() < 0.5)) else 1
+            if pick != cur:
+                lines.append('dev %d' % pick)
+                cur = pick
+            # a burst of 1..4 lines of the same radio
+            src = qa if pick == 0 else qb
+            for _ in range(r.randint(1, 4)):
+                if src:
+                    lines.append(src.pop(0))
+        mixed.append(lines)
+    binary, err = C.build_harness('cache')
+    if binary is None:
+        return
+    out = C.run_impl(binary, mixed)
+    run.cov['interleaved_pairs'] = len(pairs)
+    for k, (a, b) in enumerate(pairs):
+        il, iab = out.get(mixed[k][0], ([], None))
+        per = {0: [], 1: []}
+        cur = 0
+        for l in il[1:]:
+            if l.startswith('dev '):
+                cur = int(l.split()[1])
+            else:
+                per[cur].append(l)
+        for d, sc in ((0, a), (1, b)):
+            want = run.impl[sc[0]][0][1:]
+            run.cov['monitor_checks'] += 1
+            if iab or per[d] != want:
+                j = next((j for j in range(min(len(per[d]), len(want))) if per[d][j] != want[j]), min(len(per[d]), len(want)))
+                what = 'aborted: %s' % iab if iab else 'radio %d line %d: alone "%s" / interleaved "%s"' % (
+                    d, j, (want[j] if j < len(want) else '<end>')[:120], (per[d][j] if j < len(per[d]) else '<end>')[:120])
+                run.violation('a handle behaves differently when another radio is driven in between (%s)' % what, mixed[k],
+                              {'solo_script': sc[0]})
+                break
 
 def backends(run):
     """backend half of C19: the real Linux and ESP-IDF backends from the working tree against an
